@@ -530,10 +530,18 @@ package client
 //@     decreases len(rc.config.Conditions) - rangeindex
 
 // Trusted: lookups and the notification path of ruleRunActions do not write points (they are not part of the send log).
+// isChild(nc, p, c): the store behind nc lists c among the children of p (the answer to GetNodes(nc, p, "all", ...));
+// the tree the bus shows does not change while a handler reads it, and has a height function (busRank).
+//@ model func isChild(nc *nats.Conn, p string, c string) bool
+//@ model func busRank(nc *nats.Conn, id string) int
+//@ model func below(nc *nats.Conn, a string, n string) bool
+//@ spec func treeKept(nc *nats.Conn) bool = forall p string, c string :: isChild(nc, p, c) == old(isChild(nc, p, c)) && busRank(nc, p) == old(busRank(nc, p)) && below(nc, p, c) == old(below(nc, p, c))
 //@ extern client.GetNodes(nc, parent, id, typ, includeDel)
 //@   fresh res0
 //@   modifies state(nc)
-//@   ensures busOps(nc) == old(busOps(nc)) + 1 && logKept(nc) && sentN(nc) == old(sentN(nc))
+//@   ensures busOps(nc) == old(busOps(nc)) + 1 && logKept(nc) && sentN(nc) == old(sentN(nc)) && treeKept(nc)
+//@   ensures res1 == nil && id == "all" ==> (forall k int :: 0 <= k && k < len(res0) ==> isChild(nc, parent, res0[k].ID))
+//@   ensures res1 == nil && parent == "all" ==> (forall k int :: 0 <= k && k < len(res0) ==> res0[k].ID == id && isChild(nc, res0[k].Parent, id))
 //@ extern data.(NodeEdge).Desc(n)
 //@ extern data.(*Notification).ToPb(n)
 //@   fresh res0
@@ -630,3 +638,58 @@ package client
 //@   loop 4:
 //@     invariant true
 //@     modifies state(cs.nc)
+
+// ---- node.go: GetNodesForUser (C09) ---------------------------------------------------------------------------
+// below(nc, a, n): n is a descendant of a in the tree the bus shows.
+//@ axiom below_child: forall nc *nats.Conn, a string, c string :: triggers(isChild(nc, a, c)) ==> (isChild(nc, a, c) ==> below(nc, a, c))
+//@ axiom below_step: forall nc *nats.Conn, a string, c string, n string :: triggers(isChild(nc, a, c), below(nc, c, n)) ==> (isChild(nc, a, c) && below(nc, c, n) ==> below(nc, a, n))
+//@ spec func busAcyclic(nc *nats.Conn) bool = forall p string, c string :: isChild(nc, p, c) ==> 0 <= busRank(nc, c) && busRank(nc, c) < busRank(nc, p)
+
+// getChildren (the recursive function literal)
+//@ func GetNodesForUser$1
+//@   props C09
+//@   local id string#1
+//@   local ret []data.NodeEdge#1
+//@   local children []data.NodeEdge#2
+//@   summary
+//@   self getChildren
+//@   requires busAcyclic(nc)
+//@   fresh res0
+//@   modifies state(nc)
+//@   decreases busRank(nc, id)
+//@   ensures [C09] treeKept(nc) && logKept(nc) && sentN(nc) == old(sentN(nc)) && busAcyclic(nc)
+//@   ensures [C09] only-descendants: res1 == nil ==> (forall k int :: 0 <= k && k < len(res0) ==> below(nc, id, res0[k].ID))
+//@   loop 1:
+//@     invariant -1 <= rangeindex && rangeindex < len(children) || rangeindex == -1
+//@     invariant sinceLoop(ret) && treeKept(nc) && busAcyclic(nc) && logKept(nc) && sentN(nc) == old(sentN(nc))
+//@     invariant forall k int :: 0 <= k && k < len(children) ==> isChild(nc, id, children[k].ID)
+//@     invariant forall k int :: 0 <= k && k < len(ret) ==> below(nc, id, ret[k].ID)
+//@     modifies ret, state(nc)
+//@     decreases len(children) - rangeindex
+
+//@ spec func inUsersSubtrees(nc *nats.Conn, userID string, n data.NodeEdge) bool = exists p string :: isChild(nc, p, userID) && (n.ID == p || below(nc, p, n.ID))
+//@ func GetNodesForUser
+//@   props C09
+//@   local nc *nats.Conn#1
+//@   local userID string#1
+//@   local ret []data.NodeEdge#2
+//@   local userNodes []data.NodeEdge#3
+//@   local un data.NodeEdge#1
+//@   local parents []data.NodeEdge#4
+//@   requires busAcyclic(nc)
+//@   modifies state(nc)
+//@   ensures [C09] tree-kept: treeKept(nc)
+//@   ensures [C09] only-the-users-subtrees: res1 == nil ==> (forall k int :: 0 <= k && k < len(res0) ==> inUsersSubtrees(nc, userID, res0[k]))
+//@   loop 1:
+//@     invariant -1 <= rangeindex && rangeindex < len(userNodes) || rangeindex == -1
+//@     invariant sinceLoop(ret) && treeKept(nc) && busAcyclic(nc)
+//@     invariant forall j int :: 0 <= j && j < len(userNodes) ==> isChild(nc, userNodes[j].Parent, userID)
+//@     invariant forall k int :: 0 <= k && k < len(ret) ==> inUsersSubtrees(nc, userID, ret[k])
+//@     modifies ret, state(nc)
+//@     decreases len(userNodes) - rangeindex
+//@   loop 2:
+//@     invariant -1 <= rangeindex && rangeindex < len(parents) || rangeindex == -1
+//@     invariant isfresh(parents)
+//@     invariant forall k int :: 0 <= k && k < len(parents) ==> parents[k].ID == un.Parent
+//@     modifies parents
+//@     decreases len(parents) - rangeindex
